@@ -86,6 +86,7 @@ type Engine struct {
 	predDeclared map[string]bool
 	Deadline time.Time
 	initPhase bool
+	initFileFilter map[string][]string
 }
 
 // Load builds SSA for the given patterns in dir with overlay files.
@@ -660,6 +661,34 @@ type PathResult struct {
 
 // RunInit executes a package initialiser concretely and freezes the resulting
 // memory as the base state of every path.
+// RunInitFiles executes the initialiser of a dependency package restricted to
+// the init functions declared in the named files (package-level variable
+// initialisers always run): the tables built by the other files stay empty.
+func (e *Engine) RunInitFiles(pkgPath string, files []string) error {
+	e.initFileFilter = map[string][]string{pkgPath: files}
+	defer func() { e.initFileFilter = nil }()
+	return e.RunInit(pkgPath)
+}
+
+// skipInitFn: under RunInitFiles, an init#N function of the filtered package
+// declared in a file that is not listed.
+func (e *Engine) skipInitFn(fn *ssa.Function) bool {
+	if e.initFileFilter == nil || fn.Pkg == nil || !strings.HasPrefix(fn.Name(), "init#") {
+		return false
+	}
+	files, ok := e.initFileFilter[fn.Pkg.Pkg.Path()]
+	if !ok {
+		return false
+	}
+	name := e.P.Fset.Position(fn.Pos()).Filename
+	for _, f := range files {
+		if strings.HasSuffix(name, f) {
+			return false
+		}
+	}
+	return true
+}
+
 func (e *Engine) RunInit(pkgPath string) error {
 	pk := e.P.Package(pkgPath)
 	if pk == nil {
